@@ -16,6 +16,17 @@ CLAIMED = {
   note="Lean kernel; axioms {propext, Quot.sound, Classical.choice} at most; translator's token-level recognisers for the "
        "operator files; IEEE-754 behaviour of rustc's f64 and Lean's Float (both the platform double) is assumed, compared bit-for-bit.",
   technique="Lean 4 proof over translated operator tables + differential correspondence", ref="DESIGN.md §6 C08"),
+ "C14": dict(
+  text="Lean 4 theorems, discharged by kernel `decide` over the complete finite quantifier (all 35^2 ordered pairs of binary "
+       "operators, every prefix x binary, prefix x postfix, binary x postfix combination): the model of pest 2.7.14's Pratt loop "
+       "run on the operator table regenerated from parser/src/lib.rs groups each as the 14-level table regenerated from "
+       "docs/operators.md prescribes; table = doc table level by level with associativity; grammar alternatives are all in the "
+       "table with the right affix; ordered choices never split a multi-character operator; Rule->BinOperator map total, injective, "
+       "display = grammar literal. Tied by running the real PRATT_PARSER (tree-building closures) against the model and an "
+       "independent doc-table parser on pairs, triples and random operator strings, and by values of unparenthesised expressions.",
+  note="Lean kernel; translator readers for the .op(...) chain, the pest grammar, the Markdown table; hand model of pest's "
+       "pratt_parser.rs pinned by version + SHA-256 (a dependency bump breaks the tie); triples are exhaustive only in the thorough stream.",
+  technique="Lean 4 proof (decide over translated operator/doc tables) + differential correspondence", ref="DESIGN.md §6 C14"),
 }
 NOT_YET = "machinery for this property is not built yet in this round (planned, see DESIGN.md §6)"
 
